@@ -4,7 +4,7 @@
    non-negative signed area (counter-clockwise) that is those coordinates, closed, in one of
    the two directions. *)
 From Coq Require Import ZArith String List Bool Lia.
-From Verif Require Import C17.Model C17.Spec C17.Proofs.
+From Verif Require Import C17.Model C17.Spec C17.ProofsPacked C17.Proofs.
 From VerifGen Require Import GenTags.
 Import ListNotations.
 Open Scope Z_scope.
@@ -176,22 +176,22 @@ Proof.
 Qed.
 
 Lemma node_summaries_spec o d id :
-  is_nil (rel_summaries o d (TNode, id)) = false <-> is_rel_member d id.
+  is_nil (rel_summaries_x o d (TNode, id)) = false <-> is_rel_member d id.
 Proof.
   unfold is_rel_member. split.
-  - intros H. destruct (rel_summaries o d (TNode, id)) as [|s l] eqn:Hs; [discriminate|].
-    assert (Hin : In s (rel_summaries o d (TNode, id))) by (rewrite Hs; left; reflexivity).
-    unfold rel_summaries in Hin. apply in_flat_map in Hin. destruct Hin as [r [Hr Hin]].
+  - intros H. destruct (rel_summaries_x o d (TNode, id)) as [|s l] eqn:Hs; [discriminate|].
+    assert (Hin : In s (rel_summaries_x o d (TNode, id))) by (rewrite Hs; left; reflexivity).
+    unfold rel_summaries_x in Hin. apply in_flat_map in Hin. destruct Hin as [r [Hr Hin]].
     apply in_flat_map in Hin. destruct Hin as [m [Hm Hin]].
     exists r, m. cbn [fst snd] in Hin.
     destruct (member_counts o d m && etype_eqb (m_type m) TNode && (m_ref m =? id)) eqn:Hc; [|destruct Hin].
     apply andb_true_iff in Hc. destruct Hc as [Hc He]. apply andb_true_iff in Hc. destruct Hc as [_ Ht].
     apply etype_eqb_eq in Ht. apply Z.eqb_eq in He. auto.
   - intros [r [m [Hr [Hm [Ht He]]]]].
-    destruct (rel_summaries o d (TNode, id)) as [|s l] eqn:Hs; [|reflexivity]. exfalso.
+    destruct (rel_summaries_x o d (TNode, id)) as [|s l] eqn:Hs; [|reflexivity]. exfalso.
     assert (Hin : In {| s_id := r_id r; s_role := m_role m; s_tags := tags_map (r_tags r) |}
-                     (rel_summaries o d (TNode, id))).
-    { unfold rel_summaries. apply in_flat_map. exists r. split; [exact Hr|].
+                     (rel_summaries_x o d (TNode, id))).
+    { unfold rel_summaries_x. apply in_flat_map. exists r. split; [exact Hr|].
       apply in_flat_map. exists m. split; [exact Hm|]. cbn [fst snd].
       unfold member_counts. rewrite Ht, He, Z.eqb_refl. cbn. rewrite andb_false_r. cbn. left. reflexivity. }
     rewrite Hs in Hin. destruct Hin.
@@ -203,10 +203,11 @@ Proof.
 Qed.
 
 Lemma node_emitted_spec o d n :
-  node_emitted o d n = true <->
-  (~ is_way_member d (n_id n) \/ has_interesting_tag (n_tags n) \/ is_rel_member d (n_id n)).
+  key_clash d = false -> In n (nodes d) ->
+  (node_emitted o d n = true <->
+   (~ is_way_member d (n_id n) \/ has_interesting_tag (n_tags n) \/ is_rel_member d (n_id n))).
 Proof.
-  unfold node_emitted. rewrite negb_true_iff, !andb_false_iff, negb_false_iff.
+  intros Hc Hn. unfold node_emitted. rewrite (rel_summaries_exact o d _ Hc (node_key_in d n Hn)). rewrite negb_true_iff, !andb_false_iff, negb_false_iff.
   rewrite <- way_member_spec, <- has_interesting_spec, <- node_summaries_spec with (o := o).
   destruct (way_member d (n_id n)); split; intros H; intuition congruence.
 Qed.
@@ -221,15 +222,16 @@ Section Geom.
     mk_feature o d TNode (n_id n) (n_tags n) false (n_meta n) (GPoint (n_lon n, n_lat n)).
 
   Theorem node_feature_iff o d n :
+    packed_ok d = true ->
     In n (nodes d) -> NoDup (map n_id (nodes d)) ->
     ((exists f, In f (convert o d) /\ fkey f = (TNode, n_id n)) <-> node_rule d n) /\
     (forall f, In f (convert o d) -> fkey f = (TNode, n_id n) -> f = node_point o d n).
   Proof.
-    intros Hn Hd.
+    intros Hok Hn Hd. destruct (packed_ok_split d Hok) as [Hpoly Hclash].
     assert (Hfrom : forall f, In f (convert o d) -> fkey f = (TNode, n_id n) ->
                       node_emitted o d n = true /\ node_feature o d n = Some f).
     { intros f Hf Hk. unfold Model.convert in Hf. apply in_app_or in Hf. destruct Hf as [Hf|Hf].
-      - exfalso. apply (rel_feature_type _ _ _ _ _ Hf). unfold fkey in Hk. injection Hk as Ht _. exact Ht.
+      - exfalso. apply (rel_feature_type _ _ _ _ _ Hpoly Hf). unfold fkey in Hk. injection Hk as Ht _. exact Ht.
       - apply in_app_or in Hf. destruct Hf as [Hf|Hf].
         + pose proof (way_feature_type _ _ _ _ _ Hf) as Ht. unfold fkey in Hk. injection Hk as Ht' _. congruence.
         + destruct (node_features_in _ _ _ Hf) as [n' [Hn' [He Hnf]]].
@@ -239,11 +241,11 @@ Section Geom.
     split; [split|].
     - intros [f [Hf Hk]]. destruct (Hfrom f Hf Hk) as [He Hnf]. split.
       + apply node_located_spec. unfold node_feature in Hnf. destruct (node_located n); [reflexivity|discriminate].
-      + apply (node_emitted_spec o). exact He.
+      + apply (node_emitted_spec o d n Hclash Hn). exact He.
     - intros [Hl Hr]. exists (node_point o d n). split; [|reflexivity].
       unfold Model.convert. apply in_or_app. right. apply in_or_app. right.
       unfold node_features. apply in_flat_map. exists n. split; [exact Hn|].
-      apply (node_emitted_spec o) in Hr. rewrite Hr. unfold node_feature.
+      apply (node_emitted_spec o d n Hclash Hn) in Hr. rewrite Hr. unfold node_feature.
       apply node_located_spec in Hl. rewrite Hl. left. reflexivity.
     - intros f Hf Hk. destruct (Hfrom f Hf Hk) as [_ Hnf]. unfold node_feature in Hnf.
       destruct (node_located n); [|discriminate]. injection Hnf as <-. reflexivity.
